@@ -14,6 +14,38 @@ from ..common import Infra
 from .. import runwrap
 
 
+def owsim_half(ctx):
+    """ow-sim: one goroutine per model type inside a generation + the asynchronous writers. The protocol's
+    interleavings are explored on OwSim.tla (see C07); here the REAL binary, built with the race detector,
+    runs a seeded sample of the TLC-generated graphs under schedule perturbation."""
+    from .. import owsim
+    for cfg in ("OwSim_3.cfg", "OwSim_4.cfg"):
+        r = ctx.tlc("MCOwSim", cfg=cfg, timeout=1200, deadlock=True)
+        r.require_ok(cfg)
+        ctx.cov["states"] += r.distinct
+        ctx.cov["transitions"] += r.generated
+    cases, st = owsim.graphs(ctx, "OwSimData.cfg")
+    binary = owsim.build_owsim(ctx, race=True)
+    n = 30 if ctx.quick else 400
+    rc_env = {"GORACE": "halt_on_error=1 exitcode=66"}
+    import os
+    old = dict(os.environ)
+    os.environ.update(rc_env)
+    try:
+        s = owsim.run_engine(ctx, cases, binary, ["-sample", str(n), "-options", "basic+noout", "-workers", "8", "-perturb"], seed_offset=500)
+    finally:
+        os.environ.clear()
+        os.environ.update(old)
+    ctx.cov["evaluations"] += s["evaluations"]
+    ctx.cov["traces_validated_against_impl"] += s["evaluations"]
+    ctx.notes["owsim_race_runs"] = s["extra"]
+    for m in s["mismatches"]:
+        if "DATA RACE" in m["detail"]:
+            ctx.report({"kind": "race", "model": "ow-sim"}, "data race reported by the Go race detector in ow-sim: " + m["detail"][-1800:], m)
+        else:
+            ctx.report({"kind": "owsim-" + m["kind"], "model": "ow-sim"}, "ow-sim (race build, perturbed schedule) %s: %s" % (m["option"], m["detail"][:1200]), m)
+
+
 def run(ctx):
     cases, r = runwrap.tlc_configs(ctx, "RunWrapper.cfg")
     # vacuity self-test: the bugged variant must violate NoRace
@@ -50,6 +82,7 @@ def run(ctx):
         for m in s["mismatches"]:
             ctx.report({"kind": "schedule-dependent:" + m["kind"], "model": m["model"]},
                        "%s/%s GOMAXPROCS=%s %s: %s" % (m["model"], m["backend"], gmp, m["kind"], m["detail"]), m)
+    owsim_half(ctx)
     ctx.assumptions += ["the Go race detector generalises each observed execution over all interleavings of the same synchronisation events",
                         "TLC interleavings: <=3 cells, <=2 timesteps, one location per row/timestep"]
     return ctx.finish("model_checking")
